@@ -354,3 +354,172 @@ class SetConstraint:
         else:
             target_dict["constraints"][_type].append(constraint)
         return target_dict
+
+
+# ------------------------------------------------------------------ folding of table-level clauses into the table (p_expression_table)
+from contracts.lib import defcolumn_value  # noqa: E402
+
+
+def table_state(G, constraints="none", name="tbl"):
+    """the table collected so far: opaque column list; `constraints` absent / holding other kinds / holding the same kind"""
+    fixed = {"schema": none_or_str(G, name + ".schema", NAME), "table_name": G.str(name + ".table_name", NAME),
+             "columns": G.oseq(name + ".columns", elem=lambda g, n: defcolumn_value(g, n, light=True)), "checks": []}
+    named = lambda g, n: {"columns": names(g, n + ".c"), "constraint_name": g.str(n + ".n", NAME)}
+    if constraints == "other":
+        fixed["constraints"] = {"checks": G.oseq(name + ".prev_checks", elem=lambda g, n: {"statement": g.str(n + ".s"), "constraint_name": g.str(n + ".n", NAME)}, min_len=1)}
+    elif constraints == "same":
+        fixed["constraints"] = {"uniques": G.oseq(name + ".prev_u", elem=named, min_len=1), "primary_keys": G.oseq(name + ".prev_pk", elem=named, min_len=1),
+                                "references": G.oseq(name + ".prev_r", elem=lambda g, n: {"table": g.str(n + ".t", NAME), "constraint_name": g.str(n + ".n", NAME)}, min_len=1)}
+    return G.record(fixed, {"if_not_exists": (name + ".ine", True)})
+
+
+def constraint_value(G):
+    return {"constraint": {"name": G.str("cname", NAME)}}
+
+
+def add_constraint(table, kind, entry, had):
+    if had == "none":
+        table["constraints"] = {kind: [entry]}
+    elif had == "other":
+        table["constraints"][kind] = [entry]
+    else:
+        table["constraints"][kind].append(entry)
+
+
+@contract
+class TableLevelKeys:
+    """expr COMMA [constraint] pkey | uniq: the clause is recorded on the table (named ones under constraints with their
+    name and exact column list), every earlier column, clause and constraint is kept, in order"""
+    fn = "dialects.sql.BaseSQL.p_expression_table"
+    props = ["C02"]
+    observable = "result"
+    cases = {}
+    for _had in ("none", "other", "same"):
+        cases["expr COMMA pkey [constraints: %s]" % _had] = dict(alt="expr COMMA pkey", kind="pk", named=False, had=_had)
+        cases["expr COMMA constraint pkey [constraints: %s]" % _had] = dict(alt="expr COMMA constraint pkey", kind="pk", named=True, had=_had)
+        cases["expr COMMA constraint uniq [constraints: %s]" % _had] = dict(alt="expr COMMA constraint uniq", kind="uniq", named=True, had=_had)
+        cases["expr COMMA uniq (2 columns) [constraints: %s]" % _had] = dict(alt="expr COMMA uniq", kind="uniq", named=False, had=_had, ncols=2)
+    loops = {}
+
+    def build(G, case):
+        alt = case["alt"]
+        n = len(alt.split())
+        vals = {1: table_state(G, case["had"])}
+        if case["named"]:
+            vals[3] = constraint_value(G)
+        if case["kind"] == "pk":
+            vals[n] = {"primary_key": names(G, "pk")}
+        elif case.get("ncols") == 2:
+            vals[n] = {"unique_statement": {"columns": [G.str("u0", r"[a-z][a-z0-9]*", "a"), G.str("u1", r"[a-z][a-z0-9]*", "b")]}}
+        else:
+            vals[n] = {"unique_statement": {"columns": names(G, "ucols")}}
+        return dict(args=[G.parser(), production(G, alt, vals)])
+
+    def spec(case, self_, p):
+        p[0] = p[1]
+        t = p[0]
+        clause = p[len(p) - 1]
+        if case["kind"] == "pk":
+            t["primary_key"] = clause["primary_key"]
+            if case["named"]:
+                add_constraint(t, "primary_keys", {"columns": clause["primary_key"], "constraint_name": p[3]["constraint"]["name"]}, case["had"])
+        else:
+            t["unique_statement"] = clause["unique_statement"]
+            cols = clause["unique_statement"]["columns"]
+            if case["named"]:
+                add_constraint(t, "uniques", {"columns": cols, "constraint_name": p[3]["constraint"]["name"]}, case["had"])
+            else:
+                add_constraint(t, "uniques", {"columns": cols, "constraint_name": "UC_" + cols[0] + "_" + cols[1]}, case["had"])
+
+    def ensures(case, old, new, result):
+        return new[1][0] is new[1][1]
+
+
+def flag_unique_if_named(name):
+    def f(c):
+        if c["name"] == name:
+            r = dict(c)
+            r["unique"] = True
+            return r
+        return c
+    return f
+
+
+@contract
+class TableLevelSingleUnique:
+    """expr COMMA UNIQUE (col): every column already collected whose name is `col` is flagged, nothing else changes"""
+    fn = "dialects.sql.BaseSQL.p_expression_table"
+    props = ["C02"]
+    observable = "result"
+    cases = {"expr COMMA uniq (1 column)": {}}
+    loops = {"dialects.sql.BaseSQL.process_unique_and_primary_constraint#0": dict(inv="inv_cols", temps=["col"], reads=["col_name"])}
+
+    def build(G, case):
+        return dict(args=[G.parser(), production(G, "expr COMMA uniq", {1: table_state(G, "none"), 3: {"unique_statement": {"columns": [G.str("u0", NAME, "a")]}}})])
+
+    def inv_cols(case, pre, rest, entry):
+        return {"data['columns']": seq_map(flag_unique_if_named(entry["col_name"]), pre) + rest}
+
+    def spec(case, self_, p):
+        p[0] = p[1]
+        p[0]["unique_statement"] = p[3]["unique_statement"]
+        p[0]["columns"] = seq_map(flag_unique_if_named(p[3]["unique_statement"]["columns"][0]), p[0]["columns"])
+
+    def ensures(case, old, new, result):
+        return new[1][0] is new[1][1]
+
+
+def ref_clause(G, n):
+    return {"references": {"table": G.str("r.table", NAME), "columns": [G.str("r.col%d" % i, NAME) for i in range(n)], "schema": none_or_str(G, "r.schema", NAME),
+                           "on_delete": none_or_str(G, "r.on_delete", NAME), "on_update": none_or_str(G, "r.on_update", NAME), "deferrable_initially": None}}
+
+
+@contract
+class TableLevelForeignKey:
+    """expr COMMA [constraint] foreign ref: one reference record per key column, each with ITS referenced column, the
+    referenced table / schema and the actions as written (SHAPE-BOUNDED: 1 or 2 key columns)"""
+    fn = "dialects.sql.BaseSQL.p_expression_table"
+    props = ["C02"]
+    observable = "result"
+    cases = {"expr COMMA foreign ref (1 column)": dict(n=1, named=False), "expr COMMA foreign ref (2 columns)": dict(n=2, named=False),
+             "expr COMMA constraint foreign ref (2 columns)": dict(n=2, named=True), "expr COMMA constraint foreign ref (1 column)": dict(n=1, named=True)}
+
+    def build(G, case):
+        alt = "expr COMMA constraint foreign ref" if case["named"] else "expr COMMA foreign ref"
+        n = len(alt.split())
+        vals = {1: table_state(G, "none"), n - 1: [G.str("k%d" % i, NAME) for i in range(case["n"])], n: ref_clause(G, case["n"])}
+        if case["named"]:
+            vals[3] = constraint_value(G)
+        return dict(args=[G.parser(), production(G, alt, vals)])
+
+    def requires(case, self_, p):
+        # CONSTRAINT is a clause-opening word, never a column name (C06)
+        for k in p[len(p) - 2]:
+            if k == "constraint":
+                return False
+        return True
+
+    def spec(case, self_, p):
+        p[0] = p[1]
+        t = p[0]
+        ref = p[len(p) - 1]["references"]
+        keys = p[len(p) - 2]
+        if case["named"]:
+            rec = ref        # the constraint record is the reference itself, completed with the key column(s) and the name
+            if case["n"] == 1:
+                rec["name"] = keys[0]
+            else:
+                rec["name"] = keys
+            rec["constraint_name"] = p[3]["constraint"]["name"]
+            t["references"] = ref
+            t["constraints"] = {"references": [rec]}
+        else:
+            t["references"] = ref
+            out = []
+            for i in range(case["n"]):
+                out.append({"table": ref["table"], "schema": ref["schema"], "on_delete": ref["on_delete"], "on_update": ref["on_update"],
+                            "deferrable_initially": None, "column": ref["columns"][i], "name": keys[i]})
+            t["ref_columns"] = out
+
+    def ensures(case, old, new, result):
+        return new[1][0] is new[1][1]
